@@ -141,7 +141,7 @@ def analyse(res, prop, expected, open_f):
         rec = dict(unit=uid, obligation=name, message=i['message'], props=props,
                    clause=(i['clause'] or {}).get('text'), site_line=(i['site'] or {}).get('line'),
                    site_text=(i['site'] or {}).get('text'), rendered=i['rendered'])
-        fn = units[uid]['name'] if uid in units else None
+        fn = ex[uid]['emitted_fn'] if uid in ex else None
         if exp_fns and not any(k == fn or k.endswith('::' + fn) for k in exp_fns):
             out['undecided'].append('%s: unit %s fails but has no passing baseline in expected.json' % (info['template'], uid))
         elif prop in props:
